@@ -4,6 +4,7 @@ mod c04;
 mod c05;
 mod c06;
 mod c07;
+mod c09;
 mod c17;
 mod enum_fol;
 mod dom;
@@ -13,6 +14,7 @@ mod prob;
 mod refsem;
 mod report;
 mod sem;
+mod tasks;
 mod tff;
 mod tt;
 
@@ -76,6 +78,8 @@ fn main() {
         "C08" => c01::run(c01::Mode::C08, &run),
         "C07" => c07::run(c07::Mode::C07, &run),
         "C05" => c05::run(&run),
+        "C09" => c09::run(c09::Mode::C09, &run),
+        "C12" => c09::run(c09::Mode::C12, &run),
         "C06" => c06::run(&run),
         "C04" => c04::run(&run),
         "C03" => c03::run(&run),
